@@ -184,16 +184,33 @@ def check(ctx):
     rm = m.func(CF, '_IncomingPacketHandler.remove_header_callback')
     gr = cfg_of(rm)
     removes = gr.find(lambda n: method_call(n, 'remove') and norm(n.func.value) == 'self.cb')
-    ctx.need(len(removes) >= 1, 'remove_header_callback: no self.cb.remove(...) found')
     params = rm.params
-    for node, call in removes:
-        ent = call.args[0]
-        keys = g_eq_fields(gr.facts_at(node), norm(ent))
-        want = {'port': 'port', 'port_mask': 'port_mask', 'channel': 'channel', 'channel_mask': 'channel_mask', 'callback': 'cb'}
+    want = {'port': 'port', 'port_mask': 'port_mask', 'channel': 'channel', 'channel_mask': 'channel_mask', 'callback': 'cb'}
+    rebuilds = [st for st in walk_own(rm.node) if isinstance(st, ast.Assign) and norm(st.targets[0]) == 'self.cb' and isinstance(st.value, ast.ListComp)]
+    if removes:
+        for node, call in removes:
+            ent = call.args[0]
+            keys = g_eq_fields(gr.facts_at(node), norm(ent))
+            for field, par in want.items():
+                ok = keys.get(field) == par and par in params
+                ctx.inst('R4', rm, 'remove-eq:' + field, ok,
+                         'removal must require entry.%s == %s; guards found: %s' % (field, par, keys))
+    elif len(rebuilds) == 1 and len(rebuilds[0].value.generators) == 1 and norm(rebuilds[0].value.generators[0].iter) == 'self.cb':
+        # self.cb = [c for c in self.cb if <keep>]: an entry is dropped iff it equals the arguments on all five fields
+        gen = rebuilds[0].value.generators[0]
+        ent = norm(gen.target)
+        dropped = {}
+        for cond in gen.ifs:
+            for f in implied(cond, False):          # facts that hold for a DROPPED entry
+                if f.op == '==' and f.pol:
+                    for a, b in ((f.left, f.right), (f.right, f.left)):
+                        if isinstance(a, ast.Attribute) and norm(a.value) == ent and isinstance(b, ast.Name):
+                            dropped[a.attr] = b.id
         for field, par in want.items():
-            ok = keys.get(field) == par and par in params
-            ctx.inst('R4', rm, 'remove-eq:' + field, ok,
-                     'removal must require entry.%s == %s; guards found: %s' % (field, par, keys))
+            ctx.inst('R4', rm, 'remove-eq:' + field, dropped.get(field) == par and par in params,
+                     'an entry may be dropped only if entry.%s == %s; conditions found for a dropped entry: %s' % (field, par, dropped))
+    else:
+        ctx.need(False, 'remove_header_callback: removal idiom not recognised')
 
     # ---- R5: one receive / one fan-out / one dispatch per iteration ---------
     wl = [n for n in g.nodes if n.kind == 'while']
@@ -298,7 +315,19 @@ def barrier(func, loop, call):
     for n in [x for s in t.finalbody for x in walk_own(s)]:
         if isinstance(n, (ast.Raise, ast.Break, ast.Return)):
             return False, 'finally block leaves the dispatch loop'
-    return True, 'try/except Exception around the invocation, handler stays in loop'
+    # the handler itself must not be able to raise: only logging / traceback formatting of plain packet fields
+    cbvar = loop.target.id if isinstance(loop.target, ast.Name) else None
+    for h in t.handlers:
+        for n in [x for s in h.body for x in walk_own(s)]:
+            if isinstance(n, ast.Call):
+                d = dotted(n.func) or ''
+                if not (d.startswith(('logger.', 'logging.', 'traceback.')) or d in ('print', 'str', 'repr', 'format', 'type')):
+                    return False, 'handler calls %s, which may raise and would end the dispatcher thread' % norm(n)[:50]
+            if isinstance(n, ast.Attribute) and isinstance(n.value, ast.Attribute) and isinstance(n.value.value, ast.Name) and n.value.value.id == cbvar:
+                return False, 'handler dereferences %s on an arbitrary user callable; AttributeError there escapes the barrier' % norm(n)
+            if isinstance(n, ast.Subscript) and isinstance(n.ctx, ast.Load):
+                return False, 'handler subscripts %s, which may raise' % norm(n)[:50]
+    return True, 'try/except Exception around the invocation, handler stays in loop and cannot raise'
 
 
 def check_snapshot(ctx, func, klass, loop, itexpr):
